@@ -2,6 +2,7 @@ package c16
 
 import (
 	"fmt"
+	"runtime/debug"
 	"sort"
 	"strconv"
 	"strings"
@@ -14,6 +15,7 @@ import (
 
 func TestMain(m *testing.M) {
 	document.SetGlobalLevel(document.LogLevelSilent)
+	debug.SetGCPercent(400) // the library compiles its regular expressions on every call: mostly short-lived garbage
 	kit.TestMain(m, 10000, 60000)
 }
 
@@ -178,10 +180,7 @@ func (c *Case) templateData(rev bool) *document.TemplateData {
 // would treat them differently from one walk over its data to the next.
 func (c *Case) renders() int {
 	if c.varNamesSuppliedVar() {
-		return 6
-	}
-	if c.someDataStringHasOpenBraces() {
-		return 2
+		return 4
 	}
 	return 1
 }
